@@ -278,6 +278,45 @@ func checkC01(c *Ctx) (string, []string) {
 		c.Check(len(narrow) == 0 && len(wide) >= 1, "C01.ecalli-id", "PVM."+fn+" · accessor", f.Pos(), "reads the identifier with the 32-bit accessor", "the host-call identifier is read back through the 8-bit GetHostCallID (identifiers ≥ 256 alias low ones)")
 	}
 
+	// the decoded program is immutable at run time: block starts, instruction index, bitmask and code are what deblob
+	// and the pre-decoder built — an engine that writes into these tables changes which pcs count as block starts
+	c.Rule("C01.program-immutable", "elements of a Program's tables (BlockAt, InstrIdxAt, Instrs, Bitmasks, InstructionData, jump table) are stored only by the deblob path (DeBlobProgramCode, MakeBitMasks, preDecodeBlocks and the helpers they call, executable/zeroExtend on their private copies); no instruction handler or engine writes into them", 1)
+	{
+		allowed := map[string]bool{"DeBlobProgramCode": true, "MakeBitMasks": true, "preDecodeBlocks": true, "decodeOperands": true, "executable": true, "zeroExtend": true}
+		tables := map[string]bool{"BlockAt": true, "InstrIdxAt": true, "Instrs": true, "Bitmasks": true, "InstructionData": true}
+		nok := 0
+		for _, f0 := range c.SrcFuncs("PVM") {
+			for _, f := range withClosures(f0) {
+				allInstrs(f, func(in ssa.Instruction) {
+					st, ok := in.(*ssa.Store)
+					if !ok {
+						return
+					}
+					ia, isIA := st.Addr.(*ssa.IndexAddr)
+					if !isIA {
+						return
+					}
+					// the indexed value is a load of a Program field
+					u, isU := stripConv(ia.X).(*ssa.UnOp)
+					if !isU || u.Op != token.MUL {
+						return
+					}
+					fa, isFA := u.X.(*ssa.FieldAddr)
+					if !isFA || !tables[fieldName(fa.X.Type(), fa.Field)] || !hasSuffixType(derefType(fa.X.Type()), "PVM.Program") {
+						return
+					}
+					name := fieldName(fa.X.Type(), fa.Field)
+					if allowed[f.Name()] || f.Parent() != nil && allowed[f.Parent().Name()] {
+						nok++
+						return
+					}
+					c.Bad("C01.program-immutable", funcKey(f)+" · "+name+"[…] ←", st.Pos(), "%s stores into Program.%s at run time: the table that decides block starts / instruction boundaries is no longer the one built from the blob (a pc can become a legal jump target after the machine was resumed there)", f.Name(), name)
+				})
+			}
+		}
+		c.Check(nok > 0, "C01.program-immutable", "PVM · table writers", token.NoPos, fmt.Sprintf("%d element stores, all inside the deblob path", nok), "no store into the program tables found at all (the pre-decoder was not recognised)")
+	}
+
 	c.Rule("C01.reads-before-writes", "within every instruction handler of either engine all register reads precede the register write (operands refer to the prior state even when source and destination registers coincide)", 200)
 	e.ruleReadsBeforeWrites("C01.reads-before-writes", t)
 
